@@ -78,6 +78,10 @@ mod verif_round {
     static mut OWNER: [u8; 8] = [255; 8];
     static mut OUT_DROP_TRACKED: bool = false;   // outputs carry the id of their input and have a destructor
     static mut THREADS_RUN: usize = 1;
+    // Kani's assert! also ASSUMES its condition afterwards, so a failed assertion of one property could mask the other's.
+    // Each run of a harness therefore watches ONE property, chosen nondeterministically at the first check.
+    static mut WATCH: u8 = 0;
+    fn watching(mask: u8) -> bool { unsafe { if WATCH == 0 { WATCH = if kani::any() { 1 } else { 2 }; } WATCH & mask != 0 } }
     static mut THREAD: u8 = 0;          // index of the task the sequential stand-in is running
     static mut NEXT_ID: u8 = 0;
     static mut SAMPLE_SIZE: u32 = 0;
@@ -93,63 +97,63 @@ mod verif_round {
             let m = &mut MON[th];
             let bit = if id < 8 { 1u8 << id } else { 0 };
             // a fence must directly follow each timestamp read
-            if m.want_after != 0 { assert!(kind == m.want_after, "[C02] missing fence right after a timestamp read"); m.want_after = 0; }
+            if m.want_after != 0 { if watching(2) { assert!(kind == m.want_after, "[C02] missing fence right after a timestamp read"); } m.want_after = 0; }
             if kind == GEN {
-                assert!(m.phase == 0, "[C02] input generated after the start timestamp");
-                assert!(m.barriers_before == 0, "[C02] input generated after the threads met for the start");
+                if watching(2) { assert!(m.phase == 0, "[C02] input generated after the start timestamp"); }
+                if watching(2) { assert!(m.barriers_before == 0, "[C02] input generated after the threads met for the start"); }
                 m.gens += 1;
-                if bit != 0 { assert!(M_GEN & bit == 0, "[C01] identity generated twice"); M_GEN |= bit; OWNER[id as usize] = th as u8; }
+                if bit != 0 { if watching(1) { assert!(M_GEN & bit == 0, "[C01] identity generated twice"); } M_GEN |= bit; OWNER[id as usize] = th as u8; }
             } else if kind == COUNT {
-                assert!(m.phase == 0, "[C02] input counted after the start timestamp");
+                if watching(2) { assert!(m.phase == 0, "[C02] input counted after the start timestamp"); }
                 m.counts += 1;
                 if bit != 0 {
-                    assert!(M_GEN & bit != 0 && M_COUNT & bit == 0 && M_CALL & bit == 0, "[C01] each value is shown once to the counter, after generation and before its call");
-                    assert!(OWNER[id as usize] == th as u8, "[C01] a value was counted on another thread than it was generated on");
+                    if watching(1) { assert!(M_GEN & bit != 0 && M_COUNT & bit == 0 && M_CALL & bit == 0, "[C01] each value is shown once to the counter, after generation and before its call"); }
+                    if watching(1) { assert!(OWNER[id as usize] == th as u8, "[C01] a value was counted on another thread than it was generated on"); }
                     M_COUNT |= bit;
                 }
             } else if kind == CALL {
-                assert!(m.phase == 1, "[C02] benchmarked call outside the timed section");
+                if watching(2) { assert!(m.phase == 1, "[C02] benchmarked call outside the timed section"); }
                 m.calls += 1;
                 if bit != 0 {
-                    assert!(M_GEN & bit != 0, "[C01] a call received a value that was never generated");
-                    assert!(M_CALL & bit == 0, "[C01] a generated value was passed to more than one call");
-                    assert!(M_DIN & bit == 0, "[C01] a value was handed out after it was dropped");
-                    assert!(OWNER[id as usize] == th as u8, "[C01] a value was consumed on another thread than it was generated on");
+                    if watching(1) { assert!(M_GEN & bit != 0, "[C01] a call received a value that was never generated"); }
+                    if watching(1) { assert!(M_CALL & bit == 0, "[C01] a generated value was passed to more than one call"); }
+                    if watching(1) { assert!(M_DIN & bit == 0, "[C01] a value was handed out after it was dropped"); }
+                    if watching(1) { assert!(OWNER[id as usize] == th as u8, "[C01] a value was consumed on another thread than it was generated on"); }
                     M_CALL |= bit;
                 }
             } else if kind == DROP_OUT {
-                assert!(m.phase == 2, "[C01][C02] output dropped before the end timestamp of its sample");
-                assert!(THREADS_RUN == 1 || m.barriers_after == 1, "[C02] output dropped before the threads met after the end timestamp");
+                if watching(3) { assert!(m.phase == 2, "[C01][C02] output dropped before the end timestamp of its sample"); }
+                if watching(2) { assert!(THREADS_RUN == 1 || m.barriers_after == 1, "[C02] output dropped before the threads met after the end timestamp"); }
                 m.drop_out += 1;
                 if bit != 0 {
-                    assert!(M_CALL & bit != 0 && M_DOUT & bit == 0, "[C01] an output dropped twice or before its call");
-                    assert!(M_DIN & bit == 0, "[C01] an output dropped after the input it was computed from");
-                    assert!(OWNER[id as usize] == th as u8, "[C01] an output was dropped on another thread");
+                    if watching(1) { assert!(M_CALL & bit != 0 && M_DOUT & bit == 0, "[C01] an output dropped twice or before its call"); }
+                    if watching(1) { assert!(M_DIN & bit == 0, "[C01] an output dropped after the input it was computed from"); }
+                    if watching(1) { assert!(OWNER[id as usize] == th as u8, "[C01] an output was dropped on another thread"); }
                     M_DOUT |= bit;
                 }
             } else if kind == DROP_IN {
-                assert!(m.phase == 2, "[C01][C02] input dropped before the end timestamp of its sample");
-                assert!(THREADS_RUN == 1 || m.barriers_after == 1, "[C02] input dropped before the threads met after the end timestamp");
+                if watching(3) { assert!(m.phase == 2, "[C01][C02] input dropped before the end timestamp of its sample"); }
+                if watching(2) { assert!(THREADS_RUN == 1 || m.barriers_after == 1, "[C02] input dropped before the threads met after the end timestamp"); }
                 m.drop_in += 1;
                 if bit != 0 {
-                    assert!(M_CALL & bit != 0 && M_DIN & bit == 0, "[C01] an input dropped twice or before its call");
-                    if OUT_DROP_TRACKED { assert!(M_DOUT & bit != 0, "[C01] an input dropped before the output computed from it"); }
-                    assert!(OWNER[id as usize] == th as u8, "[C01] an input was dropped on another thread");
+                    if watching(1) { assert!(M_CALL & bit != 0 && M_DIN & bit == 0, "[C01] an input dropped twice or before its call"); }
+                    if OUT_DROP_TRACKED { if watching(1) { assert!(M_DOUT & bit != 0, "[C01] an input dropped before the output computed from it"); } }
+                    if watching(1) { assert!(OWNER[id as usize] == th as u8, "[C01] an input was dropped on another thread"); }
                     M_DIN |= bit;
                 }
             } else if kind == TS_START {
-                assert!(m.phase == 0 && m.last == FENCE_FULL, "[C02] full fence right before the start timestamp");
+                if watching(2) { assert!(m.phase == 0 && m.last == FENCE_FULL, "[C02] full fence right before the start timestamp"); }
                 m.phase = 1; m.starts += 1; m.want_after = FENCE_COMPILER;
             } else if kind == TS_END {
-                assert!(m.phase == 1 && m.last == FENCE_COMPILER, "[C02] compiler fence right before the end timestamp");
+                if watching(2) { assert!(m.phase == 1 && m.last == FENCE_COMPILER, "[C02] compiler fence right before the end timestamp"); }
                 m.phase = 2; m.ends += 1; m.want_after = FENCE_FULL;
             } else if kind == BARRIER {
-                assert!(m.phase != 1, "[C02] barrier wait inside the timed section");
+                if watching(2) { assert!(m.phase != 1, "[C02] barrier wait inside the timed section"); }
                 if m.phase == 0 { m.barriers_before += 1; } else { m.barriers_after += 1; }
             } else {
                 // fences: inside the timed section only the two that belong to the timestamp reads
             }
-            if m.phase == 1 { assert!(kind == CALL || kind == TS_START || kind == FENCE_COMPILER, "[C02] something other than a benchmarked call inside the timed section"); }
+            if m.phase == 1 { if watching(2) { assert!(kind == CALL || kind == TS_START || kind == FENCE_COMPILER, "[C02] something other than a benchmarked call inside the timed section"); } }
             m.last = kind;
         }
     }
@@ -188,35 +192,35 @@ mod verif_round {
 
     fn check_thread(th: usize, n: u32, t_run: usize, sh: &Shape) {
         let m = unsafe { MON[th] };
-        assert!(m.starts == 1 && m.ends == 1 && m.phase == 2 && m.want_after == 0, "[C02] one start and one end timestamp per sample, each followed by its fence");
-        assert!(m.gens == n, "[C01] generator called once per iteration");
-        assert!(m.calls == n, "[C01] benchmarked function called once per generated input");
-        if sh.counted { assert!(m.counts == n, "[C01] each input shown once to the input counter"); }
-        assert!(m.drop_out == if sh.out_drop { n } else { 0 }, "[C01] every output dropped exactly once");
-        assert!(m.drop_in == if sh.by_ref && sh.in_drop { n } else { 0 }, "[C01] every lent input dropped exactly once (by-value inputs never by divan)");
-        if t_run > 1 { assert!(m.barriers_before == 2 && m.barriers_after == 1, "[C02] the threads meet twice before the start timestamp and once after the end timestamp"); }
-        else { assert!(m.barriers_before == 0 && m.barriers_after == 0, "[C02] no barrier on a single thread"); }
+        if watching(2) { assert!(m.starts == 1 && m.ends == 1 && m.phase == 2 && m.want_after == 0, "[C02] one start and one end timestamp per sample, each followed by its fence"); }
+        if watching(1) { assert!(m.gens == n, "[C01] generator called once per iteration"); }
+        if watching(1) { assert!(m.calls == n, "[C01] benchmarked function called once per generated input"); }
+        if sh.counted { if watching(1) { assert!(m.counts == n, "[C01] each input shown once to the input counter"); } }
+        if watching(1) { assert!(m.drop_out == if sh.out_drop { n } else { 0 }, "[C01] every output dropped exactly once"); }
+        if watching(1) { assert!(m.drop_in == if sh.by_ref && sh.in_drop { n } else { 0 }, "[C01] every lent input dropped exactly once (by-value inputs never by divan)"); }
+        if t_run > 1 { if watching(2) { assert!(m.barriers_before == 2 && m.barriers_after == 1, "[C02] the threads meet twice before the start timestamp and once after the end timestamp"); } }
+        else { if watching(2) { assert!(m.barriers_before == 0 && m.barriers_after == 0, "[C02] no barrier on a single thread"); } }
         // allocation figures of the sample: exactly what the benchmarked calls did (16 bytes each);
         // generation (1 byte each) and drops (256 bytes each) are not reported
         let (ac, ab) = unsafe { SAMPLE_ALLOCS[th] };
-        assert!(ac == n as u64 && ab == 16 * n as u64, "[C02] allocation figures of a sample are not exactly those of its timed section");
+        if watching(2) { assert!(ac == n as u64 && ab == 16 * n as u64, "[C02] allocation figures of a sample are not exactly those of its timed section"); }
     }
 
     fn check(n: u32, threads: usize, local: bool, sh: &Shape) {
         // _local forms always run on the calling thread alone, whatever thread count is configured
-        if local { assert!(unsafe { ENTERED_THREADS } == 1, "[C01] _local entry point ran with thread_count != 1"); }
+        if local { if watching(1) { assert!(unsafe { ENTERED_THREADS } == 1, "[C01] _local entry point ran with thread_count != 1"); } }
         let t_run = if local { 1 } else { threads };
-        assert!(unsafe { SAMPLES } == t_run, "[C01] one raw sample per thread");
+        if watching(1) { assert!(unsafe { SAMPLES } == t_run, "[C01] one raw sample per thread"); }
         check_thread(0, n, t_run, sh);
         if t_run > 1 { check_thread(1, n, t_run, sh); }
         if sh.in_id {
             // every generated identity went through all its stations exactly once (masks agree)
             let all: u8 = unsafe { M_GEN };
-            assert!(all.count_ones() == n * t_run as u32, "[C01] identities");
-            assert!(unsafe { M_CALL } == all, "[C01] each generated value passed to exactly one call");
-            if sh.counted { assert!(unsafe { M_COUNT } == all, "[C01] each generated value counted"); }
-            if sh.out_drop && sh.out_id { assert!(unsafe { M_DOUT } == all, "[C01] each output dropped"); }
-            if sh.by_ref && sh.in_drop { assert!(unsafe { M_DIN } == all, "[C01] each lent input dropped"); }
+            if watching(1) { assert!(all.count_ones() == n * t_run as u32, "[C01] identities"); }
+            if watching(1) { assert!(unsafe { M_CALL } == all, "[C01] each generated value passed to exactly one call"); }
+            if sh.counted { if watching(1) { assert!(unsafe { M_COUNT } == all, "[C01] each generated value counted"); } }
+            if sh.out_drop && sh.out_id { if watching(1) { assert!(unsafe { M_DOUT } == all, "[C01] each output dropped"); } }
+            if sh.by_ref && sh.in_drop { if watching(1) { assert!(unsafe { M_DIN } == all, "[C01] each lent input dropped"); } }
         }
     }
 
@@ -315,8 +319,8 @@ mod verif_round {
                 { let $b = Bencher::new(&mut cx); $body; }
                 assert!(cx.did_run);
                 let entered = unsafe { ENTERED_THREADS };
-                if $local { assert!(entered == 1, "[C01] a _local entry point must run on the calling thread alone whatever thread count is configured"); }
-                else { assert!(entered == configured, "[C01] the configured thread count reaches the loop"); }
+                if $local { if watching(1) { assert!(entered == 1, "[C01] a _local entry point must run on the calling thread alone whatever thread count is configured"); } }
+                else { if watching(1) { assert!(entered == configured, "[C01] the configured thread count reaches the loop"); } }
                 kani::cover!(configured == 3);
             }
         };
